@@ -1,6 +1,7 @@
 import Dia.Props.C02
 import Dia.Strict
 import Dia.SpecTop
+import Dia.ConsNoLie
 /-! # C03 - Decoding is faithful: accepted frames mean what their bytes say. Property theorems only.
 `Spec.encode` (Dia/Spec.lean) is the independent RFC 6733 reading; `applyMask _ (maskList _)` forgets exactly what
 the property allows to be normalised: AVP padding octets (`zero`) and the five reserved AVP flag bits (`flags`). -/
@@ -109,6 +110,26 @@ theorem C03_rejects_unparsable (cfg : Cfg) (dict : Lookup) (hs : ∀ t d, cfg.le
     (hno : ∀ s, ¬ Parses dict bs s) (m : Msg) (hlen : bs.length = m.length) : decMsg cfg dict bs ≠ .ok m := by
   intro h
   exact hno m.abs (decMsg_parses cfg dict bs m h hlen (decMsg_strict cfg dict hs bs m h))
+
+/-- **the decode-then-extend part of C01's quantifier is inhabited by every well-formed frame.** A frame that parses
+(as any `s`, within the nesting limit) is a legitimate argument of the `decode` operation of a construction history
+(`OpOk`), under every leniency: it is accepted, the message has the frame's size and contains no length lie - so
+the history can go on extending it and C01/C02 keep applying. -/
+theorem C03_parsed_frames_in_domain (cfg : Cfg) (s0 : MState) (bs : Bytes) (s : SMsg)
+    (hp : Parses s0.dict.lookup bs s) (hd : depthAvps s.avps ≤ cfg.limit) : OpOk cfg s0 (.decode bs) := by
+  intro m hm
+  obtain ⟨hdec, _⟩ := decMsg_of_parses cfg s0.dict.lookup bs s hp hd
+  rw [hdec] at hm
+  have hm' : s.conc = m := by injection hm
+  subst hm'
+  obtain ⟨g1, g2, g3⟩ := concAvps_good s.avps hp.valid
+  refine ⟨?_, consList_nolie _ g2⟩
+  have hbody : (encodeAvps s.avps).length = lenList (concAvps s.avps) := by
+    have := encodeAvps_length (concAvps s.avps) g1 g2
+    rwa [g3] at this
+  have hlen : (Spec.encode s).length = 20 + (encodeAvps s.avps).length := by
+    simp [Spec.encode, u24be, u32be]; omega
+  rw [hp.size, hlen, hbody]; rfl
 
 /-! ### finding F1: the full statement fails for the lenient configuration the code has today -/
 
